@@ -502,3 +502,9 @@ ADDENDA_R12 = {
     "C12": ("R12.13", "merge_from leaves through an unconditional reset of this database's by-name lookup tables", "must-pass-through"),
     "C16": ("R16.8", "the loop discounting emitted libraries from a pending dependency set runs over the whole list", "loop-bound rule"),
 }
+
+
+# Triage after round 12 (DESIGN.md section 8, round 12).
+ADDENDA_R12T = {
+    "C07": ("R07.19", "a hexadecimal escape is read to its last hex digit (found F-C07k: '\\x041' recorded as 4; repaired fa4d8b5)", "structural rule: the digit-extension step sits in a loop conditioned on isxdigit()"),
+}
